@@ -141,3 +141,17 @@ func init() {
 		mutant{"reinforce-adds-two", "pkg/engine/ops.go", "newCount := count + 1", "newCount := count + 2", "GRD-reinforce", "count+1"},
 	)
 }
+
+func init() {
+	addMutants("C16",
+		mutant{"read-exemption-by-path-suffix", "internal/server/middleware.go", "\t\t\tif isReadAction || (method == http.MethodPost && (path == \"/rag/retrieve\" || strings.HasPrefix(path, \"/ui/\"))) {", "\t\t\tif isReadAction || strings.HasSuffix(path, \"search\") || (method == http.MethodPost && (path == \"/rag/retrieve\" || strings.HasPrefix(path, \"/ui/\"))) {", "WEB-3", "route:DELETE_/vector/indexes/{name}"},
+		mutant{"admin-requirement-not-enforced", "pkg/auth/rbac.go", "\tif requiredRole == RoleAdmin {\n\t\treturn false\n\t}\n", "", "SIB-roles", "HasAccess:denies:admin"},
+		mutant{"new-mutating-route-with-read-suffix", "internal/server/http_handlers.go", "\tmux.HandleFunc(\"POST /graph/actions/unlink\", s.handleGraphUnlink)", "\tmux.HandleFunc(\"POST /graph/actions/unlink\", s.handleGraphUnlink)\n\tmux.HandleFunc(\"POST /graph/actions/unlink-and-search\", s.handleGraphUnlink)\n\tmux.HandleFunc(\"POST /graph/actions/search\", s.handleGraphUnlink)", "WEB-3", "route:POST_/graph/actions/search"},
+		mutant{"namespace-from-query-decoy", "internal/server/middleware.go", "\t// B. Controllo dal Body (es. POST /vector/actions/add)\n", "\tif ns := r.URL.Query().Get(\"index_name\"); ns != \"\" {\n\t\treturn []string{ns}\n\t}\n\t// B. Controllo dal Body (es. POST /vector/actions/add)\n", "WEB-4", "middleware:namespace-locations"},
+		mutant{"verified-token-cache", "pkg/auth/jwt_provider.go", "func (j *JWTProvider) VerifyToken(tokenStr string) (*APIKeyPolicy, error) {\n", "var verifiedCache = map[string]*APIKeyPolicy{}\n\nfunc (j *JWTProvider) VerifyToken(tokenStr string) (*APIKeyPolicy, error) {\n\tif p, ok := verifiedCache[tokenStr]; ok {\n\t\tif _, revoked := j.kvStore.Get(\"_sys_auth::revoked::\" + p.ID); !revoked {\n\t\t\treturn p, nil\n\t\t}\n\t}\n", "WEB-auth", "VerifyToken:success-after-parse"},
+		mutant{"any-signing-method", "pkg/auth/jwt_provider.go", "\t\tif _, ok := t.Method.(*jwt.SigningMethodECDSA); !ok {\n\t\t\treturn nil, fmt.Errorf(\"auth: unexpected signing method: %v\", t.Header[\"alg\"])\n\t\t}\n", "", "WEB-auth", "VerifyToken:pins-ECDSA"},
+		mutant{"transfer-indexes-not-authorised", "internal/server/middleware.go", "\t\t\tfor _, ns := range []string{payload.IndexName, payload.SourceIndex, payload.TargetIndex} {", "\t\t\tfor _, ns := range []string{payload.IndexName} {", "WEB-4", "Server.handleTransferMemory"},
+		mutant{"forbidden-but-served", "internal/server/middleware.go", "\t\t\t\t\thttp.Error(w, \"Forbidden: insufficient permissions for this namespace/action\", http.StatusForbidden)\n\t\t\t\t\treturn\n", "\t\t\t\t\thttp.Error(w, \"Forbidden: insufficient permissions for this namespace/action\", http.StatusForbidden)\n", "WEB-auth", "serve-needs-HasAccess"},
+		mutant{"auth-store-unjournaled-again", "internal/server/server.go", "auth.NewJWTProvider(journaledKV{eng})", "auth.NewJWTProvider(eng.DB.GetKVStore())", "JRN-2", "pkg/auth"},
+	)
+}
